@@ -673,3 +673,73 @@ Proof.
     + rewrite <- E. cbn [at_dcol]. destruct (Nat.leb_spec s' (S s')); lia.
     + specialize (H2 ltac:(lia)). lia.
 Qed.
+
+(** ** whole lines taken by d go back with P: the text is as it was (for lines that are not the last of the text: there
+    P, which puts above the cursor's line, cannot put them back behind the last line) *)
+Lemma find_nl_is_break t : forall f i, (length t - i < f)%nat -> (find_nl t i f < length t)%nat -> is_nl_at t (find_nl t i f) = true.
+Proof.
+  induction f as [|f IH]; intros i Hf Hlt; [lia|]. cbn [find_nl] in *.
+  destruct (Nat.leb_spec (length t) i) as [L|L]; [lia|].
+  destruct (is_nl_at t i) eqn:E; [exact E|]. apply IH; [lia|exact Hlt].
+Qed.
+
+Lemma line_end_is_break t i : (line_end t i < length t)%nat -> is_nl_at t (line_end t i) = true.
+Proof. unfold line_end. apply find_nl_is_break. lia. Qed.
+
+Lemma nth_error_skipn_ops {A} : forall (n m : nat) (l : list A), nth_error (skipn n l) m = nth_error l (n + m).
+Proof.
+  induction n as [|n IH]; intros m l; [reflexivity|]. destruct l as [|x l]; [now destruct m|]. cbn. apply IH.
+Qed.
+
+Lemma slice_snoc (t : text) lo e : (lo <= e)%nat -> (e < length t)%nat -> is_nl_at t e = true ->
+  slice t lo e ++ [nl] = slice t lo (S e).
+Proof.
+  intros Hle Hlt Hn. unfold slice.
+  replace (S e - lo)%nat with (S (e - lo)) by lia.
+  assert (Hnth : nth_error (skipn lo t) (e - lo) = Some nl).
+  { rewrite nth_error_skipn_ops. replace (lo + (e - lo))%nat with e by lia.
+    unfold is_nl_at in Hn. destruct (nth_error t e) as [c|]; [|discriminate].
+    apply N.eqb_eq in Hn. now subst c. }
+  revert Hnth. generalize (skipn lo t) as l. generalize (e - lo)%nat as n.
+  induction n as [|n IH]; intros l H; destruct l as [|x l]; cbn in H; try discriminate.
+  - inversion H. reflexivity.
+  - cbn [firstn app]. f_equal. now apply IH.
+Qed.
+
+Lemma firstn_exact_left {A} (a b : list A) n : n = length a -> firstn n (a ++ b) = a.
+Proof. intros ->. induction a as [|x a IH]; cbn; [now destruct b|now rewrite IH]. Qed.
+
+Theorem delete_lines_then_P_restores ins (t : text) i a b kc c :
+  (a <= b <= length t)%nat ->
+  (line_end t b < length t)%nat ->
+  let s' := apply_op OpDelete ins (mkO t i None) (RLines a b kc) in
+  (* the cursor is anywhere on the line that took the place of the deleted ones *)
+  (c <= length (o_text s'))%nat -> line_start_from (o_text s') c = line_start_from t a ->
+  o_text (put false 1 (mkO (o_text s') c (o_reg s'))) = t.
+Proof.
+  intros Hab He. cbv zeta. cbn [apply_op o_text o_reg].
+  replace (Nat.min a (length t)) with a by lia. replace (Nat.min b (length t)) with b by lia.
+  set (lo := line_start_from t a). set (e := line_end t b).
+  pose proof (line_start_le t a) as Hlo. fold lo in Hlo.
+  pose proof (line_end_bounds t b ltac:(lia)) as Hbe. fold e in Hbe, He.
+  unfold lines_span. fold lo e.
+  destruct (Nat.ltb_spec e (length t)) as [L|L]; [|lia].
+  set (t' := cut t lo (S e)). intros Hc Hls. cbn [o_text] in Hc, Hls.
+  unfold put. cbn [o_text o_cur o_reg].
+  rewrite (Nat.min_l c (length t')) by exact Hc. rewrite Hls.
+  cbn [repeat_text Nat.max]. rewrite app_nil_r.
+  assert (Hlen : length (slice t lo e ++ [nl]) = S (e - lo)) by (rewrite app_length, slice_length by lia; cbn; lia).
+  rewrite Hlen. replace (S (e - lo) - 1)%nat with (e - lo)%nat by lia.
+  rewrite (firstn_exact_left (slice t lo e) [nl] (e - lo)) by (symmetry; apply slice_length; lia).
+  (* the parts of t' around lo are the parts of t around the deleted lines *)
+  assert (Hf : firstn lo t' = firstn lo t).
+  { unfold t', cut. rewrite firstn_app, firstn_length, firstn_firstn.
+    replace (Nat.min lo (length t)) with lo by lia. rewrite Nat.sub_diag, firstn_O, app_nil_r. f_equal. lia. }
+  assert (Hs : skipn lo t' = skipn (S e) t).
+  { unfold t', cut. rewrite skipn_app, firstn_length. replace (Nat.min lo (length t)) with lo by lia.
+    rewrite Nat.sub_diag, skipn_O, skipn_all2 by (rewrite firstn_length; lia). reflexivity. }
+  rewrite Hf, Hs.
+  change (slice t lo e ++ [nl] ++ skipn (S e) t) with (slice t lo e ++ ([nl] ++ skipn (S e) t)).
+  rewrite (app_assoc (slice t lo e)), (slice_snoc t lo e ltac:(lia) L (line_end_is_break t b L)).
+  symmetry. apply slice_parts. lia.
+Qed.
